@@ -14,7 +14,7 @@ class C02(Prop):
     assumptions = ["WellFormed (re-evaluated by TLC on every recorded frame): one host call and one device activity per correlation id, positive stream ids, first file entry a host operator without correlation id"]
 
     def gen_case(self, rng, k, tier):
-        return gen_load_case(rng, tier, "C02")
+        return gen_load_case(rng, tier, "C02", k)
 
     def observe(self, case):
         return observe_load(case, "C02")
